@@ -186,7 +186,11 @@ class Prop:
                            "deferred": c.random() < 0.25,
                            # ops executed BEFORE the two registrations: they are made on
                            # a graph that exists already
-                           "pre": c.choice([0, 0, 2, 4])},
+                           "pre": c.choice([0, 0, 2, 4]),
+                           # a second legacy handler under the same name: a bound method of
+                           # another object, which is dropped and collected at this op
+                           "second_owner": (c.randrange(nops + 1) if c.random() < 0.25
+                                            else None)},
                 "ops": ops}
 
     def execute(self, trace, env):
@@ -226,7 +230,17 @@ class Prop:
         rootm = world.mnodes[0]
         world.pinned_uids = {rootm.uid}
 
+        class Owner:
+            def on_change(self, obj, name_, new):
+                env.log("legacy2", None)
+        owner = [Owner()] if cfg.get("second_owner") is not None else []
+
         def register_both(step):
+            if owner and cfg["arity"] not in (1, 2):
+                _, e = sut(root.on_trait_change, owner[0].on_change, name)
+                if e is not None:
+                    raise Violation("C16.registration", "on_trait_change(owner.method, %r) "
+                                    "raised %r" % (name, e), step)
             _, e = sut(root.on_trait_change, hl, name, deferred=bool(cfg.get("deferred")))
             if e is not None:
                 raise Violation("C16.registration", "on_trait_change(%r) raised %r" % (name, e),
@@ -245,6 +259,11 @@ class Prop:
             if not started and i >= npre:
                 register_both(i)
                 registered = started = True
+            if owner and started and i >= cfg["second_owner"]:
+                # the other handler's owner goes away: the first handler goes on as before
+                del owner[:]
+                gc.collect()
+                env.probe("second-handler-owner-collected")
             if registered and cfg["remove_at"] is not None and i >= cfg["remove_at"]:
                 _, e1 = sut(root.on_trait_change, hl, name, remove=True)
                 _, e2 = sut(root.observe, ho, G.render_text(ast), remove=True)
